@@ -929,7 +929,8 @@ spec("C15", plan=plan_c15,
           "each, and 10^0..10^22; rapidcheck digit strings <= 25 digits.  Rules: unsigned_rule, signed_rule (and _new/_bis/_ter), "
           "unsigned_action, signed_action, unsigned/signed_rule_with_action, maximum_rule, maximum_rule_with_action, maximum_action for "
           "all eight 8..64-bit types and 22 explicit Maximum values around powers of ten and type maxima, with a non-zero previous value "
-          "in the target.  Oracle: numeral syntax per the documented grammar (no superfluous leading zero), value by 128-bit arithmetic: "
+          "in the target; every fifth input (by hash) reaches the rule through a buffer_input fed one byte per read instead of a memory input.  "
+          "Oracle: numeral syntax per the documented grammar (no superfluous leading zero), value by 128-bit arithmetic: "
           "match result, consumed length, stored value exact, or overflow signalled (parse_error; local failure without consumption for "
           "maximum_rule), never a wrapped value.  Non-trivial: numerals that overflow the target or lie within 20 of a boundary.",
      assumptions=COMMON_ASSUME)
@@ -944,10 +945,11 @@ def plan_c16(tier, seed, workdir, case):
 
 spec("C16", plan=plan_c16,
      rule="all strings up to length 3 and all strings beginning with the opening character up to length 8 (thorough 10) over {Open, Marker, "
-          "Close, LF, CR, x, a}, translated to each of 10 instances: [=] under all five end-of-line policies, [=] with content rules alpha "
-          "and not_one<'x'>, (-) under lf_crlf and cr, and < LF > (the marker is an end-of-line character); rapidcheck strings with levels "
-          "0..4, decoy brackets of other levels, one optional damaged byte, optional missing close.  Each both bare (top-level rewind "
-          "required) and inside sor< raw_string, any >.  Oracle: independent scanner: result, consumed length, span of the content action "
+          "Close, LF, CR, x, a}, translated to each of 12 instances: [=] under all five end-of-line policies, [=] with content rules alpha "
+          "and not_one<'x'>, (-) under lf_crlf and cr, < LF > (the marker is an end-of-line character), brackets 0xAB 0xBB and a marker "
+          "0xFE (negative as char); rapidcheck strings with levels "
+          "0..4, decoy brackets of other levels, one optional damaged byte, optional missing close.  Each bare (top-level rewind "
+          "required), inside sor< raw_string, any >, and bare from a buffer_input fed one byte per read.  Oracle: independent scanner: result, consumed length, span of the content action "
           "(exactly one call), and on failure nothing consumed (sor then consumes exactly one byte).  Non-trivial: strings that contain a "
           "well-formed opening bracket; distinct = (instance, text).",
      assumptions=COMMON_ASSUME + ["content rules used are one-byte rules, for which 'content is a concatenation of matches' is unambiguous"])
@@ -963,7 +965,8 @@ def plan_c19(tier, seed, workdir, case):
 spec("C19", plan=plan_c19,
      rule="all inputs up to length 7 (thorough 8) over {a, b, LF, CR} and rapidcheck texts built from line pieces; every position 0..size "
           "obtained from real runs (the input's own position() after each step of sor<eol,any> resp. any, plus a parse_error position); "
-          "five end-of-line policies x eager/lazy x initial counters {0/1/1, 7/5/4, 1000/1/1, 0/3/9}.  Oracle: independent line splitter "
+          "five end-of-line policies x eager/lazy x initial counters {0/1/1, 7/5/4, 1000/1/1, 0/3/9} x fresh input / input that was used "
+          "and restarted (eager: restart( byte, line, column ) onto the counters under test).  Oracle: independent line splitter "
           "(lines separated by the policy's end-of-line sequences, leftmost-longest): at(p) is the byte at the position's offset, "
           "begin_of_line/end_of_line are the bounds of the line containing it, line_at its bytes, and every returned pointer lies inside "
           "[data, data+size].  Positions strictly inside an end-of-line sequence are only checked for the pointer range; inputs in which "
@@ -1022,7 +1025,9 @@ spec("C18", plan=plan_c18,
           "6/7 over a 7-letter alphabet plus rapidcheck strings; oracle: the same rule unguarded on the input truncated at start+N (reaching "
           "exactly start+N may also give the documented limit error), never more than N bytes matched, the window hook never sees an "
           "inspection beyond start+N, the input's end is the real end afterwards in every outcome; also under a control whose hooks are "
-          "switched off (enable = false) for the guarded rule.  Non-trivial: guarded rule starting at "
+          "switched off (enable = false) for the guarded rule; units that the limit can split - UTF-8 code points (plus<utf8::range>, "
+          "utf8::one<U+20AC>) and CR LF under eol (lf_crlf, crlf, cr_crlf) - on all strings to length 5/6 over {a, E2, 82, AC, CR, LF}.  "
+          "Non-trivial: guarded rule starting at "
           "offset > 0 with more than N bytes remaining; inputs deeper than the limit.",
      assumptions=COMMON_ASSUME + ["unguarded PEGTL runs serve as reference for the guarded ones (the property is about the guard)"])
 
